@@ -133,7 +133,7 @@ func judge(o *outcome) []viol {
 		// --- Subscribe result
 		if st.err != nil && !st.cancelIssued && !st.dropInSub && !lenient {
 			switch {
-			case errors.Is(st.err, client.ErrInitFailed) && !sse && len(w.earlyExpired(k, i)) > 0:
+			case errors.Is(st.err, client.ErrInitFailed) && !errors.Is(st.err, context.Canceled) && !sse && len(w.earlyExpired(k, i)) > 0:
 				// not one of the recorded findings: a dialler that leaves through its own DEADLINE makes
 				// protocol.Init report ErrAckTimeout (no context error in the chain)
 				add("", "sub %d: Subscribe failed with %q although its own context is alive and the upstream acknowledged the connection as soon as its gate opened; sub(s) %v with the same option tuple ran into their own context deadline before their Subscribe call had returned (one of them was dialling for everybody)", i, st.err, w.earlyExpired(k, i))
